@@ -47,8 +47,18 @@ class PolyLower(BVLower):
     def sort_of(self, i):
         n = self.run.nodes[i]
         if n['w'] == -1:
+            if n['op'] == 'app' and n['n'] == 'fbytes':
+                return '(_ BitVec 256)'
+            if n['op'] == 'pack' and all(self.run.nodes[x]['w'] == 8 for x in n['a']):
+                return '(_ BitVec %d)' % (8 * len(n['a']))
             return 'Int'
         return super().sort_of(i)
+
+    def width(self, i):
+        n = self.run.nodes[i]
+        if n['w'] == -1 and n['op'] == 'app' and n['n'] == 'fbytes':
+            return 256
+        return super().width(i)
 
     def body(self, i, n):
         op, a, w = n['op'], n['a'], n['w']
@@ -56,6 +66,8 @@ class PolyLower(BVLower):
         pre = []
         if op == 'pack':
             kids = [self.run.nodes[x] for x in a]
+            if kids and all(k['w'] == 8 for k in kids):
+                return pre, A[0] if len(A) == 1 else '(concat %s)' % ' '.join(reversed(A))
             if len(kids) == 4 and all(k['op'] == 'const' for k in kids):
                 mont = unlimbs([int(k['v']) for k in kids])
                 if mont >= self.m:
@@ -78,6 +90,9 @@ class PolyLower(BVLower):
             raise ValueError('PolyLower: pack of mixed limbs (node %d): field element assembled from parts' % i)
         if op == 'limb' and self.run.nodes[a[0]]['w'] == -1 and n['w'] == 64 and n.get('k') == 4:
             raise ValueError('PolyLower: limb access to an abstract field value (node %d)' % i)
+        if op == 'limb' and n['w'] == 8:
+            idx = n.get('i', 0)
+            return pre, '((_ extract %d %d) %s)' % (8 * idx + 7, 8 * idx, A[0])
         if op == 'app':
             nm = n['n']
             if w == -1:
@@ -96,6 +111,15 @@ class PolyLower(BVLower):
                 if nm == 'fcmov':
                     self.cmov_conds.append(a[0])
                     return pre, '(ite (= %s (_ bv0 64)) %s %s)' % (A[0], A[1], A[2])
+                if nm == 'fbytes':
+                    f, d = self.uf('fbytes', ['Int'], '(_ BitVec 256)')
+                    return pre + d, '(%s %s)' % (f, A[0])
+                if nm == 'ffrombytes':
+                    f, d = self.uf('ffrombytes', [self.sort_of(a[0])], 'Int')
+                    return pre + d, '(%s %s)' % (f, A[0])
+                if nm == 'fh2f':
+                    f, d = self.uf('fh2f', [self.sort_of(a[0])], 'Int')
+                    return pre + d, '(%s %s)' % (f, A[0])
                 if nm in ('finv', 'fexp'):
                     f, d = self.uf(nm, ['Int'], 'Int')
                     return pre + d, '(%s %s)' % (f, A[0])
@@ -113,6 +137,9 @@ class PolyLower(BVLower):
                 return pre + d, '(ite (%s (- %s %s)) (_ bv1 64) (_ bv0 64))' % (f, A[0], A[1])
             if nm == 'fsgn0':
                 f, d = self.uf('sgn', ['Int'], 'Bool')
+                return pre + d, '(ite (%s %s) (_ bv1 64) (_ bv0 64))' % (f, A[0])
+            if nm == 'ffrombytes.1':
+                f, d = self.uf('ffrombytes_ok', [self.sort_of(a[0])], 'Bool')
                 return pre + d, '(ite (%s %s) (_ bv1 64) (_ bv0 64))' % (f, A[0])
             if nm == 'fsqrt.1':
                 f, d = self.uf('fsqrt_ok', ['Int', 'Int'], 'Bool')
